@@ -1,6 +1,7 @@
 import OpusModel.Cwrs
 import OpusModel.CeltAlloc
 import OpusModel.CeltSymsEnc
+import OpusModel.CeltBandsEnc
 import Driver.Util
 /- Suite `cwrs`: PVQ codeword enumeration (celt/cwrs.c) on the regenerated table, and the
    bits<->pulses cache look-ups of celt/rate.h.
@@ -130,6 +131,32 @@ def handle : List String → String
         let ops := if h.ops.isEmpty then "-" else ",".intercalate (h.ops.map opStr)
         s!"ops={ops} fin={h.enc.rng},{h.enc.val},{h.enc.nbitsTotal},{h.enc.offs},{h.enc.storage} st={if e1.storage = size then 1 else 0}")
         (Opus.CeltSymsEnc.encHeader cfg { e := e1, ds := ds })
+    | _, _, _, _, _, _, _, _, _ => "bad-op"
+  | ["frameenc", st, en, c, lm, vbr, size, ctx, pre, ds] =>
+    -- the whole CELT frame, encoder side (OpusModel/CeltSymsEnc.lean + CeltBandsEnc.lean): all calls, state before ec_enc_done
+    match parseNat st, parseNat en, parseNat c, parseNat lm, parseNat vbr, parseNat size, parseIntList ctx,
+          parseNatList pre, parseIntList ds with
+    | some st, some en, some c, some lm, some vbr, some size, some cx, some pre, some ds =>
+      if cx.length ≠ 11 then "bad-op" else
+      let g (i : Nat) : Nat := (cx.getD i 0).toNat
+      let e0 : Opus.RangeCoder.Ctx :=
+        { buf := List.replicate (g 0) 0, storage := g 0, endOffs := g 1, endWindow := g 2, nendBits := g 3, nbitsTotal := g 4,
+          offs := g 5, rng := g 6, val := g 7, ext := g 8, rem := cx.getD 9 0, error := cx.getD 10 0 }
+      let e1 := pre.foldl (fun e n => Opus.RangeCoder.encShrink e n) e0
+      let cfg : Opus.CeltSymsEnc.EncCfg := { start := st, end_ := en, C := c, LM := lm, vbr := vbr ≠ 0, lfe := false, size := size }
+      let opStr : Opus.RangeCoder.Op → String
+        | .bitLogp v logp => s!"b{v}/{logp}"
+        | .uint v ft => s!"u{v}/{ft}"
+        | .bits v n => s!"r{v}/{n}"
+        | .icdf sym tbl ftb => s!"i{sym}/{ftb}/{".".intercalate (tbl.map toString)}"
+        | .encodeBin fl fh b => s!"e{fl}/{fh}/{b}"
+        | .shrink n => s!"s{n}"
+        | .encode fl fh ft => s!"c{fl}/{fh}/{ft}"
+        | _ => "?"
+      resStr (fun (f : Opus.CeltBandsEnc.EncFrame) =>
+        let ops := if f.ops.isEmpty then "-" else ",".intercalate (f.ops.map opStr)
+        s!"ops={ops} fin={f.fin.rng},{f.fin.val},{f.fin.nbitsTotal},{f.fin.offs},{f.fin.storage},{f.fin.endOffs},{f.fin.endWindow},{f.fin.nendBits}")
+        (Opus.CeltBandsEnc.encFrame cfg { e := e1, ds := ds })
     | _, _, _, _, _, _, _, _, _ => "bad-op"
   | ["coarse", st, en, c, lm, lfe, size, ctx, ds] =>
     -- quant_coarse_energy alone: the intra flag and the qi of the chosen pass, from pre-clamp decisions
